@@ -672,7 +672,7 @@ func openers() []caseIn {
 }
 
 func TestC02(t *testing.T) {
-	cfg := LoadCfg(t, 120, 2500)
+	cfg := LoadCfg(t, 200, 3000)
 	em := NewEmitter(t, cfg.Out)
 	defer em.Close()
 	run := func(ci caseIn) {
